@@ -312,13 +312,14 @@ impl<R: Read> Reader<R> {
                 let checksum = read_hex_u32(&mut inner)?;
 
                 // NUL-terminated name with length `name_len` (including NUL byte).
-                let mut name_bytes = vec![0u8; name_len];
-                if name_bytes.len() > 4096 {
+                // check the untrusted length before allocating a buffer of that size
+                if name_len > 4096 {
                     return Err(io::Error::new(
                         io::ErrorKind::InvalidData,
                         "Entry name is too long",
                     ));
                 }
+                let mut name_bytes = vec![0u8; name_len];
                 inner.read_exact(&mut name_bytes)?;
                 if name_bytes.last() != Some(&0) {
                     return Err(io::Error::new(
@@ -374,7 +375,17 @@ impl<R: Read> Reader<R> {
 
         let file_size: u64 = match entry {
             RpmPayloadEntry::Cpio(ref c) => c.file_size as u64,
-            RpmPayloadEntry::Stripped(idx) => file_entries[idx as usize].size as u64,
+            RpmPayloadEntry::Stripped(idx) => match file_entries.get(idx as usize) {
+                Some(file_entry) => file_entry.size as u64,
+                // the trailer marker (see `is_trailer`) carries no data
+                None if idx == u32::MAX => 0,
+                None => {
+                    return Err(io::Error::new(
+                        io::ErrorKind::InvalidData,
+                        "Stripped entry refers to a file that is not in the header",
+                    ));
+                }
+            },
         };
 
         Ok(Reader {
